@@ -835,3 +835,29 @@ func (n *csNode) signedProj() string {
 	sort.Strings(ks)
 	return strings.Join(ks, ",")
 }
+
+// fBR is a fast-sync block result as a (possibly Byzantine) peer would deliver it.
+type fBR struct {
+	blk      module.BlockData
+	votes    []byte
+	consumed bool
+	rejected bool
+}
+
+func (b *fBR) Block() module.BlockData { return b.blk }
+func (b *fBR) Votes() []byte           { return b.votes }
+func (b *fBR) Consume()                { b.consumed = true }
+func (b *fBR) Reject()                 { b.rejected = true }
+
+// deliverBlockResult hands a block + commit vote list to the engine through the
+// same entry point the fast-sync client uses.
+func (n *csNode) deliverBlockResult(raw []byte, votes []byte) {
+	if n.dead() {
+		return
+	}
+	blk, err := n.bm.NewBlockDataFromReader(bytes.NewReader(raw))
+	if err != nil {
+		return
+	}
+	n.guard(func() { n.cs.ReceiveBlockResult(&fBR{blk: blk, votes: votes}) })
+}
